@@ -259,6 +259,18 @@ class Scanner:
         """input region (within var's domain) where boolean term cond == outcome"""
         if cond[0] == 'bool':
             return list(self.dom) if cond[1] == outcome else []
+        if cond[0] == 'call' and cond[1] == 'core::iter::traits::iterator::Iterator::any' and len(cond[2]) == 2:
+            # any(table.iter() / into_iter(table), pred): the inputs for which some entry satisfies the predicate
+            src = self.V.iter_source(cond[2][0])
+            clo = self.V.strip(cond[2][1])
+            if src is None or src[0] != 'tab' or clo[0] != 'agg' or not str(clo[1]).startswith('closure|'):
+                raise Unrecognised('any() on something that is not an iterator over a derived table: %s' % show(cond)[:200])
+            hit = []
+            for lo, hi, off in self.entries(src, 'fwd'):
+                ent = self.entry_term(src, lo, hi, off)
+                param = ent if src[2] == 'array' else ('ref', ent, None, None)
+                hit = ivl.union(hit, self.cond_region(self.apply_closure(clo, param, st), True, st))
+            return hit if outcome else ivl.diff(list(self.dom), hit, self.tlo, self.thi)
         if cond[0] == 'un' and cond[1] == 'Not':
             return self.cond_region(cond[2], not outcome, st)
         if cond[0] == 'call' and cond[1] == S.CONTAINS:
@@ -329,11 +341,14 @@ class Scanner:
             for st in states:
                 val = None
                 if kind == 'return':
-                    raw = S.path_return(self.body, path)
+                    raw = S.resolve_phi(S.path_return(self.body, path), path)      # a value joined from several blocks: the one defined on this path
                     for st2 in self.bind_all(raw, st):
                         if not st2['region']:
                             continue
-                        outcomes.append((st2['region'], kind, self.rewrite(raw, st2), st2, path))
+                        for reg, v in self.split_value(self.rewrite(raw, st2), st2):
+                            if reg:
+                                st3 = self.fork(st2); st3['region'] = reg
+                                outcomes.append((reg, kind, v, st3, path))
                 else:
                     outcomes.append((st['region'], kind, None, st, path))
         return outcomes
@@ -426,6 +441,35 @@ class Scanner:
         d = st.setdefault('dir', {})
         if d.setdefault(local, direction) != direction:
             raise Unrecognised('the run-table iterator is drawn from both ends (%s after %s)' % (direction, d[local]))
+
+    def split_value(self, v, st):
+        """value-level conditionals of the returned term -> [(region, value)]:
+        `cond.then(|| x)` is Some(x) where cond holds and None elsewhere (the closure runs only there: `bool::then` is lazy);
+        `opt.ok_or(())` maps Some(x) to Ok(x) and None to Err(())"""
+        v = self.V.strip(v)
+        if v[0] == 'call' and v[1] == 'core::option::Option::ok_or' and len(v[2]) == 2 and self.V.strip(v[2][1]) in (('agg', 'tuple', ()), ('unit',)):
+            out = []
+            for reg, x in self.split_value(v[2][0], st):
+                if S.is_some(x, 'Some'):
+                    out.append((reg, ('agg', 'adt|core::result::Result|Ok', x[2])))
+                elif S.is_none(x):
+                    out.append((reg, ('agg', 'adt|core::result::Result|Err', (('agg', 'tuple', ()),))))
+                else:
+                    out.append((reg, ('call', v[1], (x, v[2][1]), v[3], v[4])))
+            return out
+        if v[0] == 'call' and v[1] == 'bool::then' and len(v[2]) == 2:
+            cond, clo = self.V.strip(v[2][0]), self.V.strip(v[2][1])
+            if clo[0] == 'agg' and str(clo[1]).startswith('closure|'):
+                yes = ivl.intersect(st['region'], self.cond_region(cond, True, st))
+                no = ivl.diff(st['region'], yes, self.tlo, self.thi)
+                out = []
+                if yes:
+                    sy = self.fork(st); sy['region'] = yes
+                    out.append((yes, ('agg', 'adt|core::option::Option|Some', (self.apply_closure(clo, None, sy),))))
+                if no:
+                    out.append((no, ('agg', 'adt|core::option::Option|None', ())))
+                return out
+        return [(st['region'], v)]
 
     def fork(self, st):
         return {'binds': dict(st['binds']), 'idx': dict(st['idx']), 'region': list(st['region']), 'first': st['first'], 'dir': dict(st.get('dir', {}))}
